@@ -172,7 +172,7 @@ def run(R):
     R.notes.append("grids up to 6x6x6; the theorems cover all grids, the correspondence samples them")
 
 
-def replay(R, payload):
+def _replay_once(R, payload):
     """Re-run the recorded case; True iff it still fails."""
     case = payload.get("case") or {}
     if not case and payload.get("disagreements"):
@@ -203,3 +203,16 @@ def replay(R, payload):
     before = (len(R.violations), len(R.disagreements))
     run_datasets(R, [(ds, ops, case.get("strategy"))])
     return (len(R.violations), len(R.disagreements)) != before
+
+
+def replay(R, payload):
+    """The history variant (plain / reused caller buffer / second scale after a
+    close) is drawn from the PRNG in a run: a replay tries each of them."""
+    for mode in (0.9, 0.1, 0.3):
+        R.extra["_force_mode"] = mode
+        try:
+            if _replay_once(R, payload):
+                return True
+        finally:
+            R.extra.pop("_force_mode", None)
+    return False
